@@ -13,8 +13,17 @@
     risk <rules>                       → <bits per rule>   (the rule, as ONE expression, is inside the class where Go's own
                                          alternation factoring deviates from the modelled semantics, see Model)
     eval <rules> <hosts> <observed>    → <match answer> | <rules answer> | <holds answer> | <risk answer>   (one round trip)
+
+  the subject layer (Model/C17Subject.lean); an authority is the text of `req.URL.Host`:
+
+    subject <authorities>              → ok <subjects>                 (hex list: `req.URL.Hostname()` of every authority)
+    outcome <deny> <direct> <mitm> <connect bits> <authorities>
+                                       → ok <one of D I X U per authority> | no-include | panic | unsupported
+                                         (a list is `none` when the flag is not given; D = 403 by deny-domains,
+                                          I = CONNECT intercepted, X = direct, U = through the upstream proxy)
 -/
 import FwdVerif.Model.C17
+import FwdVerif.Model.C17Subject
 
 namespace FwdVerif
 namespace C17
@@ -131,6 +140,49 @@ def handle1 : List String → String
 def riskAnswer (l : List Rule) : String :=
   bits (l.map fun r => match compile r.src with | .ok x => x.foldRisk | .error _ => false)
 
+def decodeOptRules (s : String) : Option (Option (List Rule)) :=
+  if s = "none" then some none else (decodeRules s).map some
+
+/-- the matcher of an optional list: `.ok none` = flag not given -/
+def buildOpt : Option (List Rule) → Except String (Option Matcher)
+  | none => .ok none
+  | some l =>
+    if someUnsupported l then .error "unsupported"
+    else match fromList l with
+      | .ok m => .ok (some m)
+      | .noInclude => .error "no-include"
+      | .panic .unsupported => .error "unsupported"
+      | .panic .syntax => .error "panic"
+
+def outcomeCode : Outcome → Char
+  | .denied => 'D'
+  | .intercepted => 'I'
+  | .direct => 'X'
+  | .upstream => 'U'
+
+def zipOutcomes (L : Lists) : List Bool → List Bytes → List Char
+  | c :: cs, a :: as => outcomeCode (outcome L c a) :: zipOutcomes L cs as
+  | _, _ => []
+
+def handleSubject : List String → Option String
+  | ["subject", auths] =>
+    match bytesList auths with
+    | some as => some s!"ok {joinList (as.map fun a => hexOfBytes (subjectOf a))}"
+    | none => some "bad-op"
+  | ["outcome", deny, direct, mitm, conn, auths] =>
+    match decodeOptRules deny, decodeOptRules direct, decodeOptRules mitm, unbits conn, bytesList auths with
+    | some d, some x, some i, some cs, some as =>
+      if cs.length != as.length then some "bad-op"
+      else if !as.all isAscii then some "unsupported"
+      else match buildOpt d, buildOpt x, buildOpt i with
+        | .ok md, .ok mx, .ok mi =>
+          some s!"ok {String.ofList (zipOutcomes { deny := md, direct := mx, mitm := mi } cs as)}"
+        | .error e, _, _ => some e
+        | _, .error e, _ => some e
+        | _, _, .error e => some e
+    | _, _, _, _, _ => some "bad-op"
+  | _ => none
+
 /-- `eval <rules> <hosts> <observed>` = the answers of `match`, `rules`, `holds` and `risk` in one
     round trip, separated by ` | ` -/
 def handle : List String → String
@@ -146,7 +198,10 @@ def handle : List String → String
     match decodeRules rules with
     | none => "bad-op"
     | some l => riskAnswer l
-  | req => handle1 req
+  | req =>
+    match handleSubject req with
+    | some a => a
+    | none => handle1 req
 
 end C17
 end FwdVerif
